@@ -1234,6 +1234,12 @@ impl ObjectFile {
             // If we have both symbol tables:
             (Some(mut a_sym), Some(b_sym)) => {
                 let SymbolTable { label_map, rel_map, debug_symbols: b_debug_symbols } = b_sym;
+                // If both sources are joined, B's source comes after A's source and a newline,
+                // so the positions of B's labels have to be shifted by that much.
+                let b_src_shift = match (&a_sym.debug_symbols, &b_debug_symbols) {
+                    (Some(ads), Some(_)) => ads.src_info.src.len() + 1,
+                    _ => 0
+                };
                 a_sym.debug_symbols = match (a_sym.debug_symbols, b_debug_symbols) {
                     (Some(ads), Some(bds)) => Some(DebugSymbols::link(ads, bds)?),
                     (m_ads, b_ads) => m_ads.or(b_ads)
@@ -1243,7 +1249,8 @@ impl ObjectFile {
                 a_sym.rel_map.extend(rel_map);
 
                 // For every label in symbol table B:
-                for (label, b_sym_data) in label_map {
+                for (label, mut b_sym_data) in label_map {
+                    b_sym_data.src_start = b_sym_data.src_start.saturating_add(b_src_shift);
                     match a_sym.label_map.entry(label) {
                         Entry::Occupied(mut e) => {
                             let &a_sym_data = e.get();
